@@ -120,7 +120,10 @@ class Sim:
         port = self._new_port(board)
         fail = {em.PORT_NAME: "SerialException"} if how == "cannot_open" else {}
         factory = SerialFactory({em.PORT_NAME: port}, fail=fail)
-        with patched((em.ebb3_serial, "comports", lambda: list(em.COMPORTS_ONE)),
+        # "absent": the board is not on the bus (unplugged, or still re-enumerating after a reboot)
+        listed = {"absent": [], "foreign_only": [("COM1", "USB Serial Device (COM1)", "USB VID:PID=1A86:7523")]}.get(
+            how, em.COMPORTS_ONE)
+        with patched((em.ebb3_serial, "comports", lambda: list(listed)),
                      (serial, "Serial", factory)):
             try:
                 obj.connect()
@@ -239,7 +242,8 @@ class Machine(RuleBasedStateMachine):
             self.ctx.note_failure(exc)
             raise
 
-    @rule(how=st.sampled_from(["good", "good", "good", "old", "nonebb", "silent", "cannot_open"]))
+    @rule(how=st.sampled_from(["good", "good", "good", "old", "nonebb", "silent", "cannot_open", "absent",
+                               "foreign_only"]))
     def connect(self, how):
         self._step(["connect", how])
 
@@ -382,6 +386,40 @@ def flood_body(ctx, case):
     ctx.record(case, sim.flags | {"flood_of_later_errors"}, nontrivial=True)
 
 
+FAILED_CONNECTS = ("absent", "foreign_only", "silent", "cannot_open", "nonebb", "old")
+
+
+def reconnect_grid():
+    for kind in WARM_FAULTS:
+        for first in FAILED_CONNECTS:
+            yield ["reconnect", kind, [first]]
+            for second in FAILED_CONNECTS:
+                yield ["reconnect", kind, [first, second]]
+
+
+def reconnect_body(ctx, case):
+    """An error is latched, the application disconnects, polls connect() while the board is away or unusable (one
+    or two failed attempts of any kind) and connects again once it is back: the object still carries its first
+    error, so every request stays silent and fails."""
+    _tag, kind, failed = case
+    sim = Sim(ctx)
+    sim.step(["connect", "good"])
+    idx, action = WARM_FAULTS[kind]
+    sim.step(["call", "xy_move", [100, -50, 200], {idx: action}])
+    first = sim.obj.err
+    sim.step(["disconnect", None])
+    for how in failed:
+        sim.step(["connect", how])
+        if how == "old":
+            sim.step(["disconnect", None])
+    sim.step(["connect", "good"])
+    for name in ("command", "query", "xy_move", "var_write", "query_steps", "pen_raise"):
+        sim.step(["call", name, list(em.METHODS[name][1]), {}])
+    if first is None or sim.obj.err != first:
+        sim.fail("after reconnecting the recorded error is %r, the first one was %r" % (sim.obj.err, first))
+    ctx.record(case, sim.flags | {"reconnect_after_failed_attempts"}, nontrivial=True)
+
+
 def close_grid():
     for exc in [None] + SERIAL_FAMILY:
         for m2 in sorted(em.METHODS):
@@ -404,6 +442,9 @@ def run(ctx):
                    "and on a never-connected object")
     ctx.exhaustive("flood-grid", flood_grid(), flood_body,
                    "6 fault kinds latch an error, then 40 failed connects of 4 kinds: the first message survives")
+    ctx.exhaustive("reconnect-grid", reconnect_grid(), reconnect_body,
+                   "6 fault kinds latch an error; disconnect; 1 or 2 failed connects of 6 kinds (board absent, only a "
+                   "foreign device listed, silent, cannot open, not an EBB, old firmware); a good connect; 6 requests")
     ctx.exhaustive("close-grid", close_grid(), close_body,
                    "connect, one request, disconnect with close() succeeding / raising each serial exception, then "
                    "each of the 32 methods")
@@ -427,6 +468,9 @@ def replay(ctx, part, case):
         return
     if case and case[0] == "flood":
         flood_body(ctx, case)
+        return
+    if case and case[0] == "reconnect":
+        reconnect_body(ctx, case)
         return
     if case and case[0] == "close":
         close_body(ctx, case)
